@@ -279,6 +279,11 @@ class Interp(Engine):
                         return self.call(fv, [], {}, None)
                 res = self.repo.find_method(cf, obj.cls, attr)
                 if res:
+                    deco = [d.id for d in res[2].decorator_list if isinstance(d, ast.Name)]
+                    if "staticmethod" in deco:
+                        return FuncV(res[0], res[1], res[2], None)
+                    if "classmethod" in deco:
+                        return FuncV(res[0], res[1], res[2], ClassV(cf, obj.cls))
                     return FuncV(res[0], res[1], res[2], obj)
                 ca = self.repo.class_attr(cf, obj.cls, attr)
                 if ca:
@@ -301,6 +306,9 @@ class Interp(Engine):
         if isinstance(obj, ClassV):
             res = self.repo.find_method(obj.rel, obj.name, attr)
             if res:
+                deco = [d.id for d in res[2].decorator_list if isinstance(d, ast.Name)]
+                if "classmethod" in deco:
+                    return FuncV(res[0], res[1], res[2], obj)
                 return FuncV(res[0], res[1], res[2], None)
             ca = self.repo.class_attr(obj.rel, obj.name, attr)
             if ca:
